@@ -284,9 +284,12 @@ class Canon:
                     want = {"write": "creat", "pwrite64": "creat", "read": "openr"}[nm]
                     if st["kind"] != want:
                         continue
-                    if not st["used"]:
-                        emit(tid, f"{'write' if want == 'creat' else 'read'} {st['path']}", idx)
+                    # the name the open file has NOW (strace -y): a temporary that was renamed meanwhile shows its new name
+                    cur = self.path(_fdpath(a[0])) or st["path"]
+                    if not st["used"] or cur != st.get("cur", st["path"]):
+                        emit(tid, f"{'write' if want == 'creat' else 'read'} {cur}", idx)
                         st["used"] = True
+                        st["cur"] = cur
                 elif nm in ("mkdir", "mkdirat"):
                     p = os.path.normpath(_q(a[0])) if nm == "mkdir" else _at(a[0], a[1])
                     cp = self.path(p)
